@@ -871,7 +871,85 @@ def twin_de_morgan(tree, relpath):
     return _DeMorgan().visit(tree)
 
 
-TWINS = [("swap-branches-of-every-if-else", twin_swap_if_else), ("de-morgan-and-negated-comparisons-in-tests", twin_de_morgan),
+class _ExtractTests(ast.NodeTransformer):
+    """`if <expr>:` -> `_t<N> = <expr>` ; `if _t<N>:` for every if statement that is a direct member of a statement list and whose test is not already a plain name
+    (introduce explaining variable). elif chains are left alone except for their first test (the assignment cannot be hoisted over earlier tests)."""
+
+    def __init__(self):
+        self.n = 0
+
+    def _rewrite(self, body):
+        out = []
+        for st in body:
+            if isinstance(st, ast.If) and not isinstance(st.test, (ast.Name, ast.Constant)) and not any(isinstance(x, (ast.NamedExpr, ast.Yield, ast.YieldFrom, ast.Await)) for x in ast.walk(st.test)):
+                self.n += 1
+                name = "_t%d" % self.n
+                out.append(ast.Assign(targets=[ast.Name(id=name, ctx=ast.Store())], value=st.test))
+                st.test = ast.Name(id=name, ctx=ast.Load())
+            out.append(st)
+        return out
+
+    def generic_visit(self, node):
+        node = super().generic_visit(node)
+        if isinstance(node, (ast.FunctionDef, ast.For, ast.While, ast.With, ast.Try, ast.If, ast.ExceptHandler)):
+            for field in ("body", "orelse", "finalbody"):
+                sub = getattr(node, field, None)
+                if isinstance(sub, list) and sub and isinstance(sub[0], ast.stmt):
+                    if isinstance(node, ast.If) and field == "orelse" and len(sub) == 1 and isinstance(sub[0], ast.If):
+                        continue    # elif chain
+                    setattr(node, field, self._rewrite(sub))
+        return node
+
+
+class _NoElseAfterJump(ast.NodeTransformer):
+    """`if c: ...; return/raise/continue/break` + `else: rest` -> the same `if` without else, followed by `rest` (and the converse is not applied)"""
+
+    def _flatten(self, body):
+        out = []
+        for st in body:
+            out.append(st)
+            if isinstance(st, ast.If) and st.orelse and st.body and isinstance(st.body[-1], (ast.Return, ast.Raise, ast.Continue, ast.Break)) \
+                    and not (len(st.orelse) == 1 and isinstance(st.orelse[0], ast.If)):
+                rest, st.orelse = st.orelse, []
+                out.extend(rest)
+        return out
+
+    def generic_visit(self, node):
+        node = super().generic_visit(node)
+        for field in ("body", "orelse", "finalbody"):
+            sub = getattr(node, field, None)
+            if isinstance(sub, list) and sub and isinstance(sub[0], ast.stmt) and not isinstance(node, ast.ClassDef):
+                setattr(node, field, self._flatten(sub))
+        return node
+
+
+def twin_no_else_after_jump(tree, relpath):
+    return _NoElseAfterJump().visit(tree)
+
+
+class _GuardClauses(ast.NodeTransformer):
+    """a function whose last statement is `if c: <body>` (no else) becomes `if not c: return` followed by <body> (guard clause); generators and functions whose
+    value is used are left alone only if the body's end could fall through with a value (it cannot: both forms return None at the end)"""
+
+    def visit_FunctionDef(self, node):
+        self.generic_visit(node)
+        if node.body and isinstance(node.body[-1], ast.If) and not node.body[-1].orelse and not any(isinstance(x, (ast.Yield, ast.YieldFrom)) for x in ast.walk(node)):
+            last = node.body[-1]
+            guard = ast.If(test=ast.UnaryOp(op=ast.Not(), operand=last.test), body=[ast.Return(value=None)], orelse=[])
+            ast.copy_location(guard, last)
+            node.body = node.body[:-1] + [guard] + last.body
+        return node
+
+
+def twin_guard_clauses(tree, relpath):
+    return _GuardClauses().visit(tree)
+
+
+def twin_extract_tests(tree, relpath):
+    return _ExtractTests().visit(tree)
+
+
+TWINS = [("if-tests-extracted-into-explaining-variables", twin_extract_tests), ("no-else-after-return-raise-continue-break", twin_no_else_after_jump), ("trailing-if-turned-into-guard-clause", twin_guard_clauses), ("swap-branches-of-every-if-else", twin_swap_if_else), ("de-morgan-and-negated-comparisons-in-tests", twin_de_morgan),
          ("reformat-through-unparse", twin_reformat), ("noop-statements-everywhere", twin_noops), ("rename-all-function-locals", twin_rename_locals),
          ("invert-every-if-without-else", twin_invert_ifs), ("dict()-instead-of-{}", twin_dict_calls), ("log.debug-at-every-function-entry", twin_logging)]
 
